@@ -12,7 +12,9 @@ Oracles that need no model (the failing-input search):
   * repeat     — parsing the same text again in the same module gives a structurally identical program;
   * history    — a fresh interpreter put into the same module gives the same program (no stale state);
   * module     — the parse-time module changes only through `.module(...)`;
-  * eval       — evaluating the re-parsed program gives what the first gives (safe programs only).
+  * eval       — evaluating the re-parsed program gives what the first gives (safe programs only);
+  * address-reuse — the text rebuilt as a transient string on the memory block of a prefix parsed and dropped
+                    just before (same id()) parses to the program of the first parse.
 
 Every worker process runs its own interpreter and its own Lean driver (16 cores).  The parent supervises
 the workers with a wall-clock watchdog (class Supervisor): a text on which a worker goes silent (work inside
@@ -29,6 +31,7 @@ import re
 import signal
 import sys
 import time
+import zlib
 from multiprocessing.connection import wait as mp_wait
 
 from . import common
@@ -63,6 +66,14 @@ THEOREMS = [
 
 ALPHABET = list("01acefx\"'[]{}():;.+-*%&|,=<>~!^#@_/\\ \n")
 assert len(ALPHABET) == 38, len(ALPHABET)
+# characters outside ASCII, one per way Python classifies them: letters (Latin-1, Greek, Cyrillic, CJK,
+# non-BMP), a digit that is no decimal (superscript two), a numeric that is no digit (one half), a
+# combining mark, an emoji (no class at all), two spaces (no-break space, line separator)
+UNICODE = ["\u00e9", "\u03bb", "\u0438", "\u540d", "\U0001d465", "\u00b2", "\u00bd", "\u0301", "\U0001f600", "\u00a0", "\u2028"]
+UNI_HOLES = ["_", "[_]", "[a _ b]", "[_", "[1 _", ":{[_ 1]}", ":{[1 _]}", ":{[_", "a,_", "_,a", "f(_)", "f(_;1)", "f(1;_)", "f(_",
+             "{_}", "{x+_}", "(_)", ":_", "0c_", "\"_\"", "\"_", ":\"_", ":\"_\"1", "1_", "_1", "a_", "_a", "._", "_.a", "_::1", "a::_",
+             ".comment(\"_\")x_", ".comment(_)_", ".module(:_)", ".module(_);a", "[;_;1]", "[;1;_", ":[_;1;2]", ":[1;_;2]",
+             "+/_", "_'", "_/[1]", "1e_", "1._", "-_", "1 _ 2", "_ _", "[[_]]", "[\"a\" _]", "_\n_", ";_;"]
 
 K_CALLS = 100         # real profile events allowed per model step
 K0_CALLS = 2000
@@ -80,6 +91,7 @@ HARD_WALL = 12.0
 HARD_PER_STEP = 1 / 300
 MODEL_WALL = 240.0    # the pipelined model calls of one batch
 GRACE_AFTER_HANG = 25.0
+REUSE_TRIES = 48      # allocations tried to land a rebuilt text on the block of the text just dropped
 K_SWITCHES = 40       # module switches through __call__ before the long-lived interpreter is renewed
 
 EXPECTED_LOOPS = {
@@ -294,10 +306,25 @@ SAFE_EVAL = re.compile(r"\.[A-Za-z]|[∇∂]|\d{4,}")
 
 
 def in_model_text(text):
+    """the driver is told the Python class of every non-ASCII character of the text (model_line); only a
+    non-ASCII DECIMAL digit is outside the model (int()/float() accept it, the model's number grammar is ASCII)"""
     for c in text:
-        if ord(c) > 127 and (c.isspace() or c.isalpha() or c.isdigit() or c.isnumeric()):
+        if ord(c) > 127 and c.isdecimal():
             return False
     return True
+
+
+def unicode_classes(text):
+    """request fields us= ua= ud= un=: the non-ASCII characters that are space / alpha / digit / numeric"""
+    extra = sorted({c for c in text if ord(c) > 127})
+    if not extra:
+        return ""
+    out = ""
+    for key, pred in (("us", str.isspace), ("ua", str.isalpha), ("ud", str.isdigit), ("un", str.isnumeric)):
+        cs = [c for c in extra if pred(c)]
+        if cs:
+            out += f" {key}=" + enc("".join(cs))
+    return out
 
 
 def new_interp(premod):
@@ -324,8 +351,63 @@ def young_interp(premod):
     return k
 
 
+def to_module(k, premod):
+    if modstr(k._module) != (enc(premod) if premod else "-"):
+        k.prog(f".module(:{premod})" if premod else ".module(0)")
+
+
+def transient_check(k, text, premod, ref, out):
+    """Texts are usually transient strings (a REPL line, a line of a file): parse a prefix A of the text
+    (up to a token boundary) as a brand-new string, drop it, build the text again as a brand-new string until
+    CPython hands out A's memory block (same id()), and parse that.  The program must be the one of the first
+    parse: nothing the parser remembers may be keyed on the identity of a text it no longer holds.
+    Returns a description of the first difference, or None."""
+    ends, pos = [], 0
+    for tk in tokens(text):
+        pos += len(tk)
+        if 0 < pos < len(text):
+            ends.append(pos)
+    tried = reused = 0
+    parts = list(text)
+    for j in ends[:6]:
+        to_module(k, premod)
+        a = text[:j]
+        if a is text or len(a) < 2:
+            a = None
+            continue
+        ida = id(a)
+        try:
+            k.prog(a)
+        except RecursionError:
+            pass
+        except Exception:
+            pass
+        del a
+        t2, held = None, []
+        for _ in range(REUSE_TRIES):
+            b = "".join(parts)        # allocates nothing but the result (text[1:] would take A's block itself)
+            if id(b) == ida:
+                t2 = b
+                break
+            held.append(b)
+        del held
+        tried += 1
+        if t2 is None:
+            continue
+        reused += 1
+        to_module(k, premod)
+        tag, val, _ = plain(lambda: k.prog(t2))
+        got = (val[0], fulldump(val[1])) if tag == "ok" else ("err", type(val).__name__) if tag == "err" else ref
+        if got != ref and not same_up_to_address(got, ref):
+            out["transient"] = (tried, reused)
+            return (f"after parsing and dropping {text[:j]!r}, the same text as a new string object at the same address "
+                    f"parses to {got} instead of {ref}")[:700]
+    out["transient"] = (tried, reused)
+    return None
+
+
 def model_line(text, premod):
-    return "parse t=" + enc(text) + (" mod=" + enc(premod) if premod else "")
+    return "parse t=" + enc(text) + (" mod=" + enc(premod) if premod else "") + unicode_classes(text)
 
 
 def model_many(cases):
@@ -445,6 +527,12 @@ def run_case0(text, premod, want_eval, mrep=None):
                                         f"{h1[1]} != fresh {h3[1]}"))
         elif "deep" not in (tag, tag3) and tag != tag3:
             out["problems"].append(("history", f"{tag} vs fresh {tag3}"))
+        # ---- transient strings: the same text as a NEW string object on the address of a text just dropped
+        if tag in ("ok", "err") and 2 <= len(text) <= 64 and (len(text) <= 6 or zlib.crc32(text.encode()) % 4 == 0):
+            ref = (val[0], fulldump(val[1])) if tag == "ok" else ("err", type(val).__name__)
+            bad = transient_check(f, text, premod, ref, out)
+            if bad:
+                out["problems"].append(("address-reuse", bad))
         # ---- evaluation of the first and of the re-parsed program
         if want_eval and (tag, tag2) == ("ok", "ok") and not SAFE_EVAL.search(text):
             e1 = _eval(new_interp(premod), val[1])
@@ -460,6 +548,10 @@ def run_case0(text, premod, want_eval, mrep=None):
         out["inmodel"] = True
         if mf["_"] in ("spin", "fuel"):
             out["mism"] = ("model-nontermination", mrep[:200], out["real"])
+        elif tag == "deep" and st is not None and st < 600 and mf.get("exotic") != "1":
+            # a RecursionError although the text has no depth (the model's whole parse takes < 600 steps;
+            # ~330 nested constructs, the least that exhausts 1000 frames, take more)
+            out["mism"] = ("parse:recursion-without-depth", mrep[:300], "RecursionError")
         elif mf.get("exotic") == "1" or tag == "deep" or real[4] == "deep":
             out["inmodel"] = False
         else:
@@ -548,6 +640,9 @@ def _worker_main(conn, use_driver):
                     n = len(text) + 1
                     counters["maxsteps_over_n2"] = max(counters.get("maxsteps_over_n2", 0), o["st"] / (n * n))
                 counters["maxwall"] = max(counters.get("maxwall", 0), o.get("wall", 0))
+                if "transient" in o:
+                    counters["transient:tried"] = counters.get("transient:tried", 0) + o["transient"][0]
+                    counters["transient:address-reused"] = counters.get("transient:address-reused", 0) + o["transient"][1]
                 if o["problems"] or o["mism"]:
                     anomalies.append(dict(text=text, premod=premod, problems=o["problems"], mism=o["mism"]))
                 elif len(samples) < 1 and len(text) > 3:
@@ -727,7 +822,8 @@ class Supervisor:
 
 TOK = re.compile(r'"(?:[^"]|"")*"?|0c.|:[A-Za-z.][A-Za-z0-9.]*|[A-Za-z.][A-Za-z0-9.]*|\d+(?:\.\d+)?(?:e[+-]?\d+)?|\s+|:[^\s\w]|.', re.S)
 INSERT_POOL = ['(', ')', '[', ']', '{', '}', ';', ':', '"', "'", '+', '-', '1', 'x', 'f', '.', ':[', ':|', ':{',
-               '0c', '/', '\\', ':"', ',', ' ', '::', 'e', '1.5', '.comment("x")', '.module(:m)', '[;', ':(']
+               '0c', '/', '\\', ':"', ',', ' ', '::', 'e', '1.5', '.comment("x")', '.module(:m)', '[;', ':(',
+               '\u00e9', '\u03bbx', '\u00b2', '\u540d', '\u00bd', 'e\u0301', '\U0001d465', '\u00a0', '[\u00e9']
 
 
 def corpus_lines():
@@ -860,6 +956,17 @@ def opener_strings():
     return out
 
 
+def unicode_strings():
+    """every non-ASCII character class in every syntactic position"""
+    out = []
+    for u in UNICODE:
+        for h in UNI_HOLES:
+            out.append(h.replace("_", u))
+        out += [u + v for v in UNICODE] + [u + c for c in ALPHABET] + [c + u for c in ALPHABET]
+        out += ["[" + c + u for c in ALPHABET] + ["[" + u + c for c in ALPHABET]
+    return out
+
+
 def exhaustive(maxlen):
     out = [""]
     layer = [""]
@@ -948,6 +1055,11 @@ def _cases(ctx):
     for s in unterminated_strings():
         if fresh(s, None):
             yield ("unterminated", s, None, False)
+    for s in unicode_strings():
+        if fresh(s, None):
+            yield ("unicode", s, None, True)
+        if len(s) <= 4 and fresh(s, "m"):
+            yield ("unicode", s, "m", False)
     lines, nfiles = corpus_lines()
     for s in directive_strings(lines):
         if fresh(s, None):
@@ -1005,6 +1117,7 @@ def _report(ctx, group, a):
             "module-object-address": "two parses differ only in a memory address inside a module-qualified symbol name",
             "setup": "setting the module through .module(...) failed",
             "slow": "the parse takes seconds of wall clock although the call count is small",
+            "address-reuse": "the same text as a new string object (on the address of a text parsed and dropped before) parses differently",
         }.get(key, key)
         ctx.oracle_fail("parse:" + key, case, "property holds", detail[:600], what)
     if a["mism"]:
@@ -1032,7 +1145,7 @@ def run(ctx):
                 "again inside a module; token-level edits (delete, insert, swap, truncate) of the unique lines of every "
                 ".kg file of the repository: a seeded sample of single and double edits (quick) / every delete, truncate, "
                 "swap and one seeded insert per position, every pool insert for 500 lines, 100k double edits (thorough); "
-                "every construct opener followed by every character; constructs without their closing delimiter, 16-44 characters; parse-time directives (.comment/.module) with 31 kinds "
+                "every construct opener followed by every character; 11 non-ASCII characters (one per Python character class) in 50 syntactic positions, next to every alphabet character and in the insert pool; constructs without their closing delimiter, 16-44 characters; parse-time directives (.comment/.module) with 31 kinds "
                 "of non-literal argument x 6 continuations and every pool insert into every corpus line holding a directive; a fixed set of long generated strings. distinct = distinct (text, module); non-trivial = length >= 2")
     ctx.assumptions += [
         "Python's recursion limit is not modelled: RecursionError counts as an error after bounded work and is excluded from the model comparison",
@@ -1126,6 +1239,8 @@ def replay(ctx, case):
     text, premod = c["text"], c.get("premod")
     use_driver = bool(getattr(ctx, "driver_ok", True))
     got = []
+    global REUSE_TRIES
+    REUSE_TRIES = 20000      # a lone case in a fresh process: insist on the address reuse
     sup = Supervisor(use_driver, 1)
     hangs = sup.run(iter([(0, [(text, premod, True)])]), lambda bid, counters, anomalies, samples: got.append((counters, anomalies)))
     ctx.count((text, premod))
